@@ -132,6 +132,8 @@ def check_mono(c):
                 got = teneva.func_get(X, A, a, b)
                 res.check(np.abs(got - want).max() <= T, 'tt.get', case,
                           lambda: 'func_get deviates by %.3e (tol %.1e)' % (np.abs(got - want).max(), T), tags)
+                g1 = teneva.func_get(X[1:2], A, a, b)
+                res.check(np.shape(g1) == (1,) and abs(g1[0] - want[1]) <= T, 'tt.get.one_row', case, lambda: 'a one-row batch gave shape %s' % (np.shape(g1),), tags)
                 one = teneva.func_get(X[1], A, a, b)
                 res.check(np.ndim(one) == 0 and abs(one - want[1]) <= T, 'tt.get.single', case, 'single point differs', tags)
                 z = teneva.func_get(Xout, A, a, b, z=-7.5)
